@@ -176,7 +176,9 @@ impl Sim {
             self.closed = true;
             // a router that has been told to stop reads at most the item it was handling; one that keeps relaying
             // whatever its publishers supply finishes only when they run dry — or never
-            if after_close > 50 && !self.relay_after_close_reported {
+            // (a bounded drain of what is ready — a few hundred items — would be legitimate; relaying on for as long as
+            // the publishers have supply is not)
+            if after_close > 600 && !self.relay_after_close_reported {
                 self.relay_after_close_reported = true;
                 self.findings.push(Finding {
                     class: "shutdown",
